@@ -301,6 +301,12 @@ Fixpoint validate_pairs (l : list (dyn * string)) : bool :=
   end.
 Definition validate_parsable (cols : list column) : bool := validate_pairs (parsable_instances cols).
 
+(* validateParsableTraits, second rule: a parsable plain-string trait must not spell the name of
+   another definition *)
+Definition validate_trait_names (vs : list gvalue) (cols : list column) : bool :=
+  forallb (fun p => forallb (fun g => String.eqb (g_name g) (snd p) || negb (dyn_eqb (fst p) (DStr (g_name g)))) vs)
+          (parsable_instances cols).
+
 Definition col_less (a b : column) : bool := str_ltb (col_name a) (col_name b).
 Definition sort_columns (cols : list column) : list column := isort col_less cols.
 
@@ -318,9 +324,11 @@ Fixpoint dyn_dedup_from (seen : list dyn) (l : list dyn) : list dyn :=
               else x :: dyn_dedup_from (x :: seen) r
   end.
 Definition dyn_dedup (l : list dyn) : list dyn := dyn_dedup_from [] l.
+(* … and a plain string trait that spells the value's own name is the constant already listed
+   for the name (fix C12-parsable-trait-equals-name) *)
 Definition case_consts (cols : list column) (v : gvalue) : list dyn :=
   DStr (g_name v) ::
-  dyn_dedup (flat_map (fun c => if col_parsable c then owned_cells c v else []) cols).
+  dyn_dedup_from [DStr (g_name v)] (flat_map (fun c => if col_parsable c then owned_cells c v else []) cols).
 
 (* pinned template: `index $trait.Traits $j` — row j of the column, whoever owns it *)
 Fixpoint indexed_cells_orig (cols : list column) (j : nat) : option (list dyn) :=
@@ -393,6 +401,7 @@ Definition gen (d : defn) (o : opts) : outcome tables :=
               let cols1 := add_rows rest 0 cols0 in
               let cols2 := sort_columns (drop_dup_rows vs cols1) in
               if negb (validate_parsable cols2) then GenErr
+              else if negb (validate_trait_names vs cols2) then GenErr
               else mk_tables d o vs cols2
         | GenErr => GenErr
         | BuildErr => BuildErr
@@ -464,7 +473,9 @@ Fixpoint try_all (t : tables) (inputs : list dyn) : option Z :=
 
 (* what the libraries report about one document; native = result of the trait type's own
    unmarshaler, per trait type *)
-Record jview := { jv_string : option string; jv_u64 : option Z; jv_i64 : option Z;
+Record jview := { jv_null : bool;      (* the document is the literal null (json.Unmarshal of null into
+                                          string / uint64 / int64 "succeeds" with "" / 0) *)
+                  jv_string : option string; jv_u64 : option Z; jv_i64 : option Z;
                   jv_native : list (string * option payload) }.
 Record yview := { yv_value : string; yv_u64 : option Z; yv_i64 : option Z;
                   yv_native : list (string * option payload) }.
@@ -497,7 +508,11 @@ Definition json_attempts_gen (rc : bool) (t : tables) (v : jview) : list dyn :=
       end)
   ++ native_attempts (family_own t ti_json_own) (jv_native v).
 Definition json_attempts (t : tables) (v : jview) : list dyn := json_attempts_gen true t v.
-Definition decode_json (t : tables) (v : jview) : option Z := try_all t (json_attempts t v).
+(* UnmarshalJSON rejects null before any fallback (fix C05-json-null-rejected) *)
+Definition decode_json (t : tables) (v : jview) : option Z :=
+  if jv_null v then None else try_all t (json_attempts t v).
+(* before that fix *)
+Definition decode_json_nullok (t : tables) (v : jview) : option Z := try_all t (json_attempts t v).
 (* before the range check: plain wrapping conversion *)
 Definition decode_json_norc (t : tables) (v : jview) : option Z := try_all t (json_attempts_gen false t v).
 
